@@ -276,6 +276,7 @@ impl<const K: usize> AffTree<K> {
                 let mut created_children = 0;
                 let mut skipped_children = 0;
                 let mut label_created = None;
+                let mut skipped: Vec<(Label, TreeIndex, TreeIndex)> = Vec::new();
 
                 for edg in lhs.tree.children(parent0_idx) {
                     let child0_idx = edg.target_idx;
@@ -307,11 +308,23 @@ impl<const K: usize> AffTree<K> {
                         label_created = Some(label);
                     } else {
                         skipped_children += 1;
-                        rhs.tree.remove_child(parent1_idx, label);
+                        skipped.push((label, child0_idx, child1_idx));
                     }
                 }
 
-                // In the case of no children remove_child already cleans up the tree
+                // Never prune the last branch of a decision: a decision without children is
+                // flagged as a terminal and its predicate would be evaluated as a function.
+                // Keep one (unreachable) branch instead and continue the composition below it.
+                if created_children == 0 {
+                    if let Some((_, child0_idx, child1_idx)) = skipped.pop() {
+                        stack.push((child0_idx, child1_idx));
+                        n_nodes += 1;
+                    }
+                }
+                for (label, _, _) in skipped {
+                    rhs.tree.remove_child(parent1_idx, label);
+                }
+
                 if created_children == 1 && created_children + skipped_children == K {
                     debug!("Forwarding node");
                     // Move affine function to parent node and clean up tree
